@@ -195,7 +195,10 @@ MANIFEST = dict(
           "reference must break a clause. The production gpbftInputs (consensus_inputs.go) is then run over an ec.Backend serving TLC-drawn trees "
           "(<=7 tipsets) with real certificates in a real certstore, on two nodes with different heads, and a real gpbft.Participant is started on "
           "hosts returning over-long/malformed chains; TLC evaluates the C15 clauses on every returned proposal/committee (ConsensusInputsTrace.tla). While GetCommittee runs the EC backend hands out power entries in non-canonical order and a recording verifier captures the key list of Verifier.Aggregate: the committee's aggregate verifier must be keyed on the committee table's own order (C15_CommitteeVerifierCanonical). A further stage models the node-level runner (Runner.tla: certificate-driven instance advancement that never goes back, the initial choice between stored finality and the manifest's initial instance, replay of the node's own WAL-recorded votes of that instance, the scheduling function computeNextInstanceStart transcribed in integer milliseconds, certificates and alarms before messages; eleven mutants refuted) and validates tables and histories recorded from a production gpbftRunner against it: C15_InstanceFollowsFinality, C15_ProposalBaseIsFinalized (timing and replay order are conformance clauses)."),
-    note=("Trusted: TLC, the model EC backend and the decoding of keys/CIDs/beacons to ids in harness/drivers/inputs (no oracle in Go). "
+    note=("Power-store stage (checks/powerstorestage.py, DESIGN 12.6): the ec.Backend production hands to consensus (internal/powerstore) is modelled in PowerStore.tla "
+          "(loop iteration, restart, EC growth with null epochs, certificates, refused lookups, failing deletes; exhaustive within the epoch bound, 5 deviations refuted) and the real "
+          "Store with its real loop on a mock clock is trace-validated; C15_PowerStoreExact: a table obtained through it is EC's table at that tipset or an error. "
+          "Trusted: TLC, the model EC backend and the decoding of keys/CIDs/beacons to ids in harness/drivers/inputs (no oracle in Go). "
           "Interpretation: 'configured maxima' includes the head look-back and the one-EC-period freshness margin (a proposal reaching closer to the head is a violation; "
           "a shorter one is only spec drift). Bounded: tree sizes above; cases beyond the exhaustive bound are sampled (seeded)."),
     technique="TLA+ reference function model-checked with TLC over the enumerated input space + TLC validation of recorded outputs of the production code",
